@@ -922,6 +922,7 @@ def jackknife(ctx):
     ctx.ob("PAIR-4", "jackknife_ratios: sample i is removed from both means, both divided by n - 1", ok, why, fi)
     R = ev.result(fr)
     ok_s = False
+    est = None
     if R.op == "tuple" and len(R.args) == 2:
         sg = m_arrcall(strip_wrappers(R.args[1]), "sqrt")
         if sg is not None:
@@ -932,7 +933,16 @@ def jackknife(ctx):
                     vr = m_arrcall(strip_wrappers(b), "var")
                     if d is not None and is_const(d[1], 1) and vr is not None:
                         ok_s = True
+                        est = strip_wrappers(vr[0])
     ctx.ob("PAIR-4", "jackknife_ratios: sigma = sqrt((n - 1) * var(leave-one-out estimates))", ok_s, "", fi)
+    if ok_s and est is not None:
+        # the estimator the brute-force leave-one-out computation gives is the average of the leave-one-out ratios (the array
+        # whose variance makes sigma); the plain ratio of the full-sample means differs from it by the O(1/n) jackknife bias
+        mean_t = strip_wrappers(R.args[0])
+        uses = any(x is est for x in subterms(mean_t))
+        ctx.ob("PAIR-4", "jackknife_ratios: the returned estimate averages the leave-one-out ratios", uses,
+               "mean over the same array as sigma's variance" if uses else
+               f"returns {show(mean_t, maxdepth=3)[:70]}, which does not read the leave-one-out estimates", fi)
 
 
 def run(ctx):
